@@ -4,6 +4,7 @@
  * Copyright (c) Karlsruhe Institute of Technology
  */
 
+#include <algorithm>
 #include <type_traits>
 
 #include "SM/FokkerPlanckMap.hpp"
@@ -32,7 +33,13 @@ vfps::FokkerPlanckMap::FokkerPlanckMap( std::shared_ptr<PhaseSpace> in
     const interpol_t e1_6d = e1/(interpol_t(6)*in->getDelta(1));
     const interpol_t e1_d2 = e1/(in->getDelta(1)*in->getDelta(1));
 
-    const meshaxis_t ycenter = in->getAxis(1)->zerobin();
+    /* The one-sided (cubic) stencils switch sides at the zero-energy row.
+     * Keep that row within the rows that get a full stencil, also when the
+     * grid is shifted so far that zero energy lies at its border or off it.
+     */
+    const meshaxis_t ycenter = std::min( std::max( in->getAxis(1)->zerobin()
+                                                 , static_cast<meshaxis_t>(2))
+                                       , static_cast<meshaxis_t>(_ysize-2));
 
     switch (dt) {
     case DerivationType::two_sided:
